@@ -96,12 +96,12 @@ pub fn rty_of(t: &syn::Type, generics: &[(String, String)]) -> RTy {
     }
     let s = norm(t);
     match s.as_str() {
-        "Self::PublicKey" | "<SelfasPairing>::PublicKey" | "<CasPairing>::PublicKey" => return RTy::PkPt,
-        "Self::Signature" | "<SelfasPairing>::Signature" | "<CasPairing>::Signature" => return RTy::SigPt,
+        "Self::PublicKey" | "<SelfasPairing>::PublicKey" | "<CasPairing>::PublicKey" | "C::PublicKey" => return RTy::PkPt,
+        "Self::Signature" | "<SelfasPairing>::Signature" | "<CasPairing>::Signature" | "C::Signature" => return RTy::SigPt,
         "Self::PairingResult" => return RTy::GtPt,
         "<Self::PublicKeyasGroup>::Scalar" | "<Self::SignatureasGroup>::Scalar" | "<<CasPairing>::PublicKeyasGroup>::Scalar"
         | "<<CasPairing>::SignatureasGroup>::Scalar" | "Scalar" => return RTy::Scalar,
-        "Self" if generics.iter().any(|(g, b)| g == "Self" && b == "[u8]") => return RTy::Bytes,
+        "Self" if generics.iter().any(|(g, b)| g == "Self" && (b == "[u8]" || b == "Vec<u8>")) => return RTy::Bytes,
         "Self::SecretKeyShare" | "<CasPairing>::SecretKeyShare" => return RTy::SkShare,
         "Self::PublicKeyShare" | "<CasPairing>::PublicKeyShare" => return RTy::PkShare,
         "Self::SignatureShare" | "<SelfasPairing>::SignatureShare" | "<CasPairing>::SignatureShare" => return RTy::SigShare,
